@@ -31,19 +31,19 @@ def SuInv (s : St) : Prop :=
       (s.aSuicided = true → a = false) ∧ (s.sSuicided = true → a = false ∧ sl = false) ∧
       (a = false → s.sealPc = .idle → s.aSuicided = true ∨ s.aReleased = false)
 
-structure Inv (s : St) : Prop where
+structure Inv (fx : Bool) (s : St) : Prop where
   sealI : SealInv s
   suI : SuInv s
   notBoth : s.active = true → s.sealed = false
   sealedRo : s.sealed = true → s.readonly = true
-  wg : s.indexWg = s.pendW + s.queued + s.failedW
-  cnt : s.begun = s.pendW + s.queued + s.indexed + s.failedW
+  wg : s.pendW + s.queued + (if fx then 0 else s.failedW) = s.indexWg
+  cnt : s.pendW + s.queued + s.indexed + s.failedW = s.begun
   ar : 0 < s.aReaders → s.aReleased = false
   sr : 0 < s.sReaders → s.sSuicided = false
   lost : s.lostWrites = 0
   sw : 0 < s.suicidedWrites → s.aSuicided = true
 
-theorem inv_init : Inv init := by
+theorem inv_init (fx : Bool) : Inv fx init := by
   constructor <;> simp [init, SealInv, SuInv]
 
 set_option linter.unusedSimpArgs false
@@ -58,121 +58,121 @@ macro "pf_label" hs:ident sealPc:ident suPc:ident : tactic => `(tactic| (
     (try (constructor <;> (try simp_all [SealInv, SuInv, St.isActive, St.isSealing, St.isSuicided, trySet]) <;>
       (try omega))))))
 
-theorem inv_appendBegin (s s' : St)  (h : Inv s) (hs : step s .appendBegin = some s') : Inv s' := by
+theorem inv_appendBegin (fx : Bool) (s s' : St)  (h : Inv fx s) (hs : step fx s .appendBegin = some s') : Inv fx s' := by
   obtain ⟨hseal, hsu, hnb, hsro, hwg, hcnt, har, hsr, hlost, hsw⟩ := h
   obtain ⟨active, sealed, readonly, indexWg, sealWg, aReaders, aReleased, aSuicided, sReaders, sSuicided, sealPc, suPc,
     fatal, begun, pendW, queued, indexed, failedW, sealedDocs, lostWrites, suicidedWrites⟩ := s
-  pf_label hs sealPc suPc
+  cases fx <;> pf_label hs sealPc suPc
 
-theorem inv_appendFail (s s' : St)  (h : Inv s) (hs : step s .appendFail = some s') : Inv s' := by
+theorem inv_appendFail (fx : Bool) (s s' : St)  (h : Inv fx s) (hs : step fx s .appendFail = some s') : Inv fx s' := by
   obtain ⟨hseal, hsu, hnb, hsro, hwg, hcnt, har, hsr, hlost, hsw⟩ := h
   obtain ⟨active, sealed, readonly, indexWg, sealWg, aReaders, aReleased, aSuicided, sReaders, sSuicided, sealPc, suPc,
     fatal, begun, pendW, queued, indexed, failedW, sealedDocs, lostWrites, suicidedWrites⟩ := s
-  pf_label hs sealPc suPc
+  cases fx <;> pf_label hs sealPc suPc
 
-theorem inv_appendWrite (s s' : St)  (h : Inv s) (hs : step s .appendWrite = some s') : Inv s' := by
+theorem inv_appendWrite (fx : Bool) (s s' : St)  (h : Inv fx s) (hs : step fx s .appendWrite = some s') : Inv fx s' := by
   obtain ⟨hseal, hsu, hnb, hsro, hwg, hcnt, har, hsr, hlost, hsw⟩ := h
   obtain ⟨active, sealed, readonly, indexWg, sealWg, aReaders, aReleased, aSuicided, sReaders, sSuicided, sealPc, suPc,
     fatal, begun, pendW, queued, indexed, failedW, sealedDocs, lostWrites, suicidedWrites⟩ := s
   cases aSuicided <;> cases aReleased <;> pf_label hs sealPc suPc
 
-theorem inv_appendWriteErr (s s' : St)  (h : Inv s) (hs : step s .appendWriteErr = some s') : Inv s' := by
+theorem inv_appendWriteErr (fx : Bool) (s s' : St)  (h : Inv fx s) (hs : step fx s .appendWriteErr = some s') : Inv fx s' := by
   obtain ⟨hseal, hsu, hnb, hsro, hwg, hcnt, har, hsr, hlost, hsw⟩ := h
   obtain ⟨active, sealed, readonly, indexWg, sealWg, aReaders, aReleased, aSuicided, sReaders, sSuicided, sealPc, suPc,
     fatal, begun, pendW, queued, indexed, failedW, sealedDocs, lostWrites, suicidedWrites⟩ := s
-  pf_label hs sealPc suPc
+  cases fx <;> pf_label hs sealPc suPc
 
-theorem inv_indexDone (s s' : St)  (h : Inv s) (hs : step s .indexDone = some s') : Inv s' := by
+theorem inv_indexDone (fx : Bool) (s s' : St)  (h : Inv fx s) (hs : step fx s .indexDone = some s') : Inv fx s' := by
   obtain ⟨hseal, hsu, hnb, hsro, hwg, hcnt, har, hsr, hlost, hsw⟩ := h
   obtain ⟨active, sealed, readonly, indexWg, sealWg, aReaders, aReleased, aSuicided, sReaders, sSuicided, sealPc, suPc,
     fatal, begun, pendW, queued, indexed, failedW, sealedDocs, lostWrites, suicidedWrites⟩ := s
-  pf_label hs sealPc suPc
+  cases fx <;> pf_label hs sealPc suPc
 
-theorem inv_sealBegin (s s' : St)  (h : Inv s) (hs : step s .sealBegin = some s') : Inv s' := by
+theorem inv_sealBegin (fx : Bool) (s s' : St)  (h : Inv fx s) (hs : step fx s .sealBegin = some s') : Inv fx s' := by
   obtain ⟨hseal, hsu, hnb, hsro, hwg, hcnt, har, hsr, hlost, hsw⟩ := h
   obtain ⟨active, sealed, readonly, indexWg, sealWg, aReaders, aReleased, aSuicided, sReaders, sSuicided, sealPc, suPc,
     fatal, begun, pendW, queued, indexed, failedW, sealedDocs, lostWrites, suicidedWrites⟩ := s
-  pf_label hs sealPc suPc
+  cases fx <;> pf_label hs sealPc suPc
 
-theorem inv_sealFail (s s' : St) (su : Bool) (h : Inv s) (hs : step s (.sealFail su) = some s') : Inv s' := by
+theorem inv_sealFail (fx : Bool) (s s' : St) (su : Bool) (h : Inv fx s) (hs : step fx s (.sealFail su) = some s') : Inv fx s' := by
   obtain ⟨hseal, hsu, hnb, hsro, hwg, hcnt, har, hsr, hlost, hsw⟩ := h
   obtain ⟨active, sealed, readonly, indexWg, sealWg, aReaders, aReleased, aSuicided, sReaders, sSuicided, sealPc, suPc,
     fatal, begun, pendW, queued, indexed, failedW, sealedDocs, lostWrites, suicidedWrites⟩ := s
   cases su <;> pf_label hs sealPc suPc
 
-theorem inv_sealIdle (s s' : St)  (h : Inv s) (hs : step s .sealIdle = some s') : Inv s' := by
+theorem inv_sealIdle (fx : Bool) (s s' : St)  (h : Inv fx s) (hs : step fx s .sealIdle = some s') : Inv fx s' := by
   obtain ⟨hseal, hsu, hnb, hsro, hwg, hcnt, har, hsr, hlost, hsw⟩ := h
   obtain ⟨active, sealed, readonly, indexWg, sealWg, aReaders, aReleased, aSuicided, sReaders, sSuicided, sealPc, suPc,
     fatal, begun, pendW, queued, indexed, failedW, sealedDocs, lostWrites, suicidedWrites⟩ := s
-  pf_label hs sealPc suPc
+  cases fx <;> pf_label hs sealPc suPc
 
-theorem inv_sealBuilt (s s' : St)  (h : Inv s) (hs : step s .sealBuilt = some s') : Inv s' := by
+theorem inv_sealBuilt (fx : Bool) (s s' : St)  (h : Inv fx s) (hs : step fx s .sealBuilt = some s') : Inv fx s' := by
   obtain ⟨hseal, hsu, hnb, hsro, hwg, hcnt, har, hsr, hlost, hsw⟩ := h
   obtain ⟨active, sealed, readonly, indexWg, sealWg, aReaders, aReleased, aSuicided, sReaders, sSuicided, sealPc, suPc,
     fatal, begun, pendW, queued, indexed, failedW, sealedDocs, lostWrites, suicidedWrites⟩ := s
-  pf_label hs sealPc suPc
+  cases fx <;> pf_label hs sealPc suPc
 
-theorem inv_sealBuildErr (s s' : St)  (h : Inv s) (hs : step s .sealBuildErr = some s') : Inv s' := by
+theorem inv_sealBuildErr (fx : Bool) (s s' : St)  (h : Inv fx s) (hs : step fx s .sealBuildErr = some s') : Inv fx s' := by
   obtain ⟨hseal, hsu, hnb, hsro, hwg, hcnt, har, hsr, hlost, hsw⟩ := h
   obtain ⟨active, sealed, readonly, indexWg, sealWg, aReaders, aReleased, aSuicided, sReaders, sSuicided, sealPc, suPc,
     fatal, begun, pendW, queued, indexed, failedW, sealedDocs, lostWrites, suicidedWrites⟩ := s
-  pf_label hs sealPc suPc
+  cases fx <;> pf_label hs sealPc suPc
 
-theorem inv_sealPublish (s s' : St)  (h : Inv s) (hs : step s .sealPublish = some s') : Inv s' := by
+theorem inv_sealPublish (fx : Bool) (s s' : St)  (h : Inv fx s) (hs : step fx s .sealPublish = some s') : Inv fx s' := by
   obtain ⟨hseal, hsu, hnb, hsro, hwg, hcnt, har, hsr, hlost, hsw⟩ := h
   obtain ⟨active, sealed, readonly, indexWg, sealWg, aReaders, aReleased, aSuicided, sReaders, sSuicided, sealPc, suPc,
     fatal, begun, pendW, queued, indexed, failedW, sealedDocs, lostWrites, suicidedWrites⟩ := s
-  pf_label hs sealPc suPc
+  cases fx <;> pf_label hs sealPc suPc
 
-theorem inv_sealWgDone (s s' : St)  (h : Inv s) (hs : step s .sealWgDone = some s') : Inv s' := by
+theorem inv_sealWgDone (fx : Bool) (s s' : St)  (h : Inv fx s) (hs : step fx s .sealWgDone = some s') : Inv fx s' := by
   obtain ⟨hseal, hsu, hnb, hsro, hwg, hcnt, har, hsr, hlost, hsw⟩ := h
   obtain ⟨active, sealed, readonly, indexWg, sealWg, aReaders, aReleased, aSuicided, sReaders, sSuicided, sealPc, suPc,
     fatal, begun, pendW, queued, indexed, failedW, sealedDocs, lostWrites, suicidedWrites⟩ := s
-  pf_label hs sealPc suPc
+  cases fx <;> pf_label hs sealPc suPc
 
-theorem inv_sealRelease (s s' : St)  (h : Inv s) (hs : step s .sealRelease = some s') : Inv s' := by
+theorem inv_sealRelease (fx : Bool) (s s' : St)  (h : Inv fx s) (hs : step fx s .sealRelease = some s') : Inv fx s' := by
   obtain ⟨hseal, hsu, hnb, hsro, hwg, hcnt, har, hsr, hlost, hsw⟩ := h
   obtain ⟨active, sealed, readonly, indexWg, sealWg, aReaders, aReleased, aSuicided, sReaders, sSuicided, sealPc, suPc,
     fatal, begun, pendW, queued, indexed, failedW, sealedDocs, lostWrites, suicidedWrites⟩ := s
-  pf_label hs sealPc suPc
+  cases fx <;> pf_label hs sealPc suPc
 
-theorem inv_suTry (s s' : St) (a sl sg : Bool) (h : Inv s) (hs : step s (.suTry a sl sg) = some s') : Inv s' := by
-  obtain ⟨hseal, hsu, hnb, hsro, hwg, hcnt, har, hsr, hlost, hsw⟩ := h
-  obtain ⟨active, sealed, readonly, indexWg, sealWg, aReaders, aReleased, aSuicided, sReaders, sSuicided, sealPc, suPc,
-    fatal, begun, pendW, queued, indexed, failedW, sealedDocs, lostWrites, suicidedWrites⟩ := s
-  cases active <;> cases sealed <;> cases readonly <;> pf_label hs sealPc suPc
-
-theorem inv_suWoken (s s' : St)  (h : Inv s) (hs : step s .suWoken = some s') : Inv s' := by
-  obtain ⟨hseal, hsu, hnb, hsro, hwg, hcnt, har, hsr, hlost, hsw⟩ := h
-  obtain ⟨active, sealed, readonly, indexWg, sealWg, aReaders, aReleased, aSuicided, sReaders, sSuicided, sealPc, suPc,
-    fatal, begun, pendW, queued, indexed, failedW, sealedDocs, lostWrites, suicidedWrites⟩ := s
-  pf_label hs sealPc suPc
-
-theorem inv_suRetry (s s' : St) (a sl sg : Bool) (h : Inv s) (hs : step s (.suRetry a sl sg) = some s') : Inv s' := by
+theorem inv_suTry (fx : Bool) (s s' : St) (a sl sg : Bool) (h : Inv fx s) (hs : step fx s (.suTry a sl sg) = some s') : Inv fx s' := by
   obtain ⟨hseal, hsu, hnb, hsro, hwg, hcnt, har, hsr, hlost, hsw⟩ := h
   obtain ⟨active, sealed, readonly, indexWg, sealWg, aReaders, aReleased, aSuicided, sReaders, sSuicided, sealPc, suPc,
     fatal, begun, pendW, queued, indexed, failedW, sealedDocs, lostWrites, suicidedWrites⟩ := s
   cases active <;> cases sealed <;> cases readonly <;> pf_label hs sealPc suPc
 
-theorem inv_suActive (s s' : St)  (h : Inv s) (hs : step s .suActive = some s') : Inv s' := by
+theorem inv_suWoken (fx : Bool) (s s' : St)  (h : Inv fx s) (hs : step fx s .suWoken = some s') : Inv fx s' := by
   obtain ⟨hseal, hsu, hnb, hsro, hwg, hcnt, har, hsr, hlost, hsw⟩ := h
   obtain ⟨active, sealed, readonly, indexWg, sealWg, aReaders, aReleased, aSuicided, sReaders, sSuicided, sealPc, suPc,
     fatal, begun, pendW, queued, indexed, failedW, sealedDocs, lostWrites, suicidedWrites⟩ := s
-  pf_label hs sealPc suPc
+  cases fx <;> pf_label hs sealPc suPc
 
-theorem inv_suSealed (s s' : St)  (h : Inv s) (hs : step s .suSealed = some s') : Inv s' := by
+theorem inv_suRetry (fx : Bool) (s s' : St) (a sl sg : Bool) (h : Inv fx s) (hs : step fx s (.suRetry a sl sg) = some s') : Inv fx s' := by
   obtain ⟨hseal, hsu, hnb, hsro, hwg, hcnt, har, hsr, hlost, hsw⟩ := h
   obtain ⟨active, sealed, readonly, indexWg, sealWg, aReaders, aReleased, aSuicided, sReaders, sSuicided, sealPc, suPc,
     fatal, begun, pendW, queued, indexed, failedW, sealedDocs, lostWrites, suicidedWrites⟩ := s
-  pf_label hs sealPc suPc
+  cases active <;> cases sealed <;> cases readonly <;> pf_label hs sealPc suPc
 
-theorem inv_dpAcquire (s s' : St) (k : Dp) (h : Inv s) (hs : step s (.dpAcquire k) = some s') : Inv s' := by
+theorem inv_suActive (fx : Bool) (s s' : St)  (h : Inv fx s) (hs : step fx s .suActive = some s') : Inv fx s' := by
+  obtain ⟨hseal, hsu, hnb, hsro, hwg, hcnt, har, hsr, hlost, hsw⟩ := h
+  obtain ⟨active, sealed, readonly, indexWg, sealWg, aReaders, aReleased, aSuicided, sReaders, sSuicided, sealPc, suPc,
+    fatal, begun, pendW, queued, indexed, failedW, sealedDocs, lostWrites, suicidedWrites⟩ := s
+  cases fx <;> pf_label hs sealPc suPc
+
+theorem inv_suSealed (fx : Bool) (s s' : St)  (h : Inv fx s) (hs : step fx s .suSealed = some s') : Inv fx s' := by
+  obtain ⟨hseal, hsu, hnb, hsro, hwg, hcnt, har, hsr, hlost, hsw⟩ := h
+  obtain ⟨active, sealed, readonly, indexWg, sealWg, aReaders, aReleased, aSuicided, sReaders, sSuicided, sealPc, suPc,
+    fatal, begun, pendW, queued, indexed, failedW, sealedDocs, lostWrites, suicidedWrites⟩ := s
+  cases fx <;> pf_label hs sealPc suPc
+
+theorem inv_dpAcquire (fx : Bool) (s s' : St) (k : Dp) (h : Inv fx s) (hs : step fx s (.dpAcquire k) = some s') : Inv fx s' := by
   obtain ⟨hseal, hsu, hnb, hsro, hwg, hcnt, har, hsr, hlost, hsw⟩ := h
   obtain ⟨active, sealed, readonly, indexWg, sealWg, aReaders, aReleased, aSuicided, sReaders, sSuicided, sealPc, suPc,
     fatal, begun, pendW, queued, indexed, failedW, sealedDocs, lostWrites, suicidedWrites⟩ := s
   cases k <;> pf_label hs sealPc suPc
 
-theorem inv_dpRelease (s s' : St) (k : Dp) (h : Inv s) (hs : step s (.dpRelease k) = some s') : Inv s' := by
+theorem inv_dpRelease (fx : Bool) (s s' : St) (k : Dp) (h : Inv fx s) (hs : step fx s (.dpRelease k) = some s') : Inv fx s' := by
   obtain ⟨hseal, hsu, hnb, hsro, hwg, hcnt, har, hsr, hlost, hsw⟩ := h
   cases k <;> simp only [step] at hs <;> split at hs <;> cases hs
   · refine ⟨by simpa [SealInv] using hseal, by simpa [SuInv] using hsu, hnb, hsro, hwg, hcnt, ?_, hsr, hlost, hsw⟩
@@ -185,30 +185,30 @@ theorem inv_dpRelease (s s' : St) (k : Dp) (h : Inv s) (hs : step s (.dpRelease 
     simp_all
   · exact ⟨hseal, hsu, hnb, hsro, hwg, hcnt, har, hsr, hlost, hsw⟩
 
-theorem inv_step (s : St) (l : Label) (s' : St) (h : Inv s) (hs : step s l = some s') : Inv s' := by
+theorem inv_step (fx : Bool) (s : St) (l : Label) (s' : St) (h : Inv fx s) (hs : step fx s l = some s') : Inv fx s' := by
   cases l with
-  | appendBegin  => exact inv_appendBegin s s'  h hs
-  | appendFail  => exact inv_appendFail s s'  h hs
-  | appendWrite  => exact inv_appendWrite s s'  h hs
-  | appendWriteErr  => exact inv_appendWriteErr s s'  h hs
-  | indexDone  => exact inv_indexDone s s'  h hs
-  | sealBegin  => exact inv_sealBegin s s'  h hs
-  | sealFail su => exact inv_sealFail s s' su h hs
-  | sealIdle  => exact inv_sealIdle s s'  h hs
-  | sealBuilt  => exact inv_sealBuilt s s'  h hs
-  | sealBuildErr  => exact inv_sealBuildErr s s'  h hs
-  | sealPublish  => exact inv_sealPublish s s'  h hs
-  | sealWgDone  => exact inv_sealWgDone s s'  h hs
-  | sealRelease  => exact inv_sealRelease s s'  h hs
-  | suTry a sl sg => exact inv_suTry s s' a sl sg h hs
-  | suWoken  => exact inv_suWoken s s'  h hs
-  | suRetry a sl sg => exact inv_suRetry s s' a sl sg h hs
-  | suActive  => exact inv_suActive s s'  h hs
-  | suSealed  => exact inv_suSealed s s'  h hs
-  | dpAcquire k => exact inv_dpAcquire s s' k h hs
-  | dpRelease k => exact inv_dpRelease s s' k h hs
+  | appendBegin  => exact inv_appendBegin fx s s'  h hs
+  | appendFail  => exact inv_appendFail fx s s'  h hs
+  | appendWrite  => exact inv_appendWrite fx s s'  h hs
+  | appendWriteErr  => exact inv_appendWriteErr fx s s'  h hs
+  | indexDone  => exact inv_indexDone fx s s'  h hs
+  | sealBegin  => exact inv_sealBegin fx s s'  h hs
+  | sealFail su => exact inv_sealFail fx s s' su h hs
+  | sealIdle  => exact inv_sealIdle fx s s'  h hs
+  | sealBuilt  => exact inv_sealBuilt fx s s'  h hs
+  | sealBuildErr  => exact inv_sealBuildErr fx s s'  h hs
+  | sealPublish  => exact inv_sealPublish fx s s'  h hs
+  | sealWgDone  => exact inv_sealWgDone fx s s'  h hs
+  | sealRelease  => exact inv_sealRelease fx s s'  h hs
+  | suTry a sl sg => exact inv_suTry fx s s' a sl sg h hs
+  | suWoken  => exact inv_suWoken fx s s'  h hs
+  | suRetry a sl sg => exact inv_suRetry fx s s' a sl sg h hs
+  | suActive  => exact inv_suActive fx s s'  h hs
+  | suSealed  => exact inv_suSealed fx s s'  h hs
+  | dpAcquire k => exact inv_dpAcquire fx s s' k h hs
+  | dpRelease k => exact inv_dpRelease fx s s' k h hs
 
-theorem inv_reachable (s : St) (h : Reachable s) : Inv s :=
-  reachable_induct Inv inv_init inv_step s h
+theorem inv_reachable (fx : Bool) (s : St) (h : Reachable fx s) : Inv fx s :=
+  reachable_induct fx (Inv fx) (inv_init fx) (inv_step fx) s h
 
 end SV.ProxyFrac
